@@ -1247,8 +1247,26 @@ class World:
             'ghost_spans': ghost_spans,
             'guards_left': guards_left,
             'contract': os.path.relpath(c.origin, VERIF),
+            'shape': self._shape(src, it),
+            'shape_pin': next((o.split('=')[1] for o in c.opts if o.startswith('shape=')), None),
             'dropped_hints': self.dropped_hints.get(cname, []),
         })
+
+    @staticmethod
+    def _shape(src, it):
+        """hash of the function's text with the bodies of its closures cut out (whitespace-normalised): when it equals the
+        value pinned in the contract file, everything around the closures is the text the closure contracts were written for"""
+        s0, e0 = it['span']
+        cuts = sorted((cl['body'][0], cl['body'][1]) for cl in it.get('closures', []))
+        out = b''
+        pos = s0
+        for a, b in cuts:
+            if a < pos:
+                continue   # nested closure inside an already cut body
+            out += src[pos:a] + b'@'
+            pos = b
+        out += src[pos:e0]
+        return sha(re.sub(rb'\s+', b' ', out))[:16]
 
     def _body(self, src, it, c, cname):
         block_s, block_e = it['block']
